@@ -412,6 +412,25 @@ struct Exec {
     removed_h: Vec<HandlerId>,
     /// display index of parameters: declared index (scripts print declared indices)
     decl_index: HashMap<String, Vec<usize>>,
+    /// run-time registered items without a Rust type (`add_*_with_descriptor`, no type id): `K<n>` for n >= 6,
+    /// `G<n>` for n >= 4, `T<n>` for n >= 3.  They only occupy registry slots, so that the typed items get large indices.
+    anon_c: HashMap<usize, ComponentId>,
+    anon_g: HashMap<usize, GlobalEventId>,
+    anon_t: HashMap<usize, TargetedEventId>,
+}
+
+const TYPED_K: usize = 6;
+const TYPED_G: usize = 4;
+const TYPED_T: usize = 3;
+
+fn anon_ev(ev: &str) -> Option<(bool, usize)> {
+    if let Some(n) = ev.strip_prefix('G').and_then(|d| d.parse::<usize>().ok()) {
+        if n >= TYPED_G { return Some((false, n)); }
+    }
+    if let Some(n) = ev.strip_prefix('T').and_then(|d| d.parse::<usize>().ok()) {
+        if n >= TYPED_T { return Some((true, n)); }
+    }
+    None
 }
 
 fn reset_thread_state() {
@@ -543,6 +562,9 @@ impl Exec {
             removed_t: vec![],
             removed_h: vec![],
             decl_index: HashMap::new(),
+            anon_c: HashMap::new(),
+            anon_g: HashMap::new(),
+            anon_t: HashMap::new(),
         }
     }
 
@@ -646,12 +668,32 @@ impl Exec {
             }
             ["addc", k] => {
                 let k = parse_k(k).ok_or_else(bad)?;
+                if k >= TYPED_K {
+                    // registering the same name twice returns the live id, like a type-identified component
+                    let id = match self.anon_c.get(&k) {
+                        Some(id) if w.components().contains(*id) => *id,
+                        _ => {
+                            let desc = evenio::component::ComponentDescriptor {
+                                name: format!("K{k}").into(),
+                                type_id: None,
+                                layout: std::alloc::Layout::new::<u64>(),
+                                drop: None,
+                                mutability: evenio::mutability::Mutability::Mutable,
+                            };
+                            let id = unsafe { w.add_component_with_descriptor(desc) };
+                            self.anon_c.insert(k, id);
+                            id
+                        }
+                    };
+                    return Ok(vec![format!("id c {}v{}", id.index().0, id.generation())]);
+                }
                 let id = with_k!(k, K => w.add_component::<K>());
                 Ok(vec![format!("id c {}v{}", id.index().0, id.generation())])
             }
             ["rmc", k] => {
                 let k = parse_k(k).ok_or_else(bad)?;
-                match comp_id(w, k) {
+                let found = if k >= TYPED_K { self.anon_c.get(&k).copied().filter(|id| w.components().contains(*id)) } else { comp_id(w, k) };
+                match found {
                     Some(id) => {
                         let r = w.remove_component(id);
                         Ok(vec![if r.is_some() { "ret some".into() } else { "ret none".into() }])
@@ -660,6 +702,36 @@ impl Exec {
                 }
             }
             ["addev", ev] => {
+                if let Some((targeted, n)) = anon_ev(ev) {
+                    let desc = evenio::event::EventDescriptor {
+                        name: ev.to_string().into(),
+                        type_id: None,
+                        kind: evenio::event::EventKind::Normal,
+                        layout: std::alloc::Layout::new::<()>(),
+                        drop: None,
+                        mutability: evenio::mutability::Mutability::Mutable,
+                    };
+                    if targeted {
+                        let id = match self.anon_t.get(&n) {
+                            Some(id) if w.targeted_events().contains(*id) => *id,
+                            _ => {
+                                let id = unsafe { w.add_targeted_event_with_descriptor(desc) };
+                                self.anon_t.insert(n, id);
+                                id
+                            }
+                        };
+                        return Ok(vec![format!("id t {}v{}", id.index().0, id.generation())]);
+                    }
+                    let id = match self.anon_g.get(&n) {
+                        Some(id) if w.global_events().contains(*id) => *id,
+                        _ => {
+                            let id = unsafe { w.add_global_event_with_descriptor(desc) };
+                            self.anon_g.insert(n, id);
+                            id
+                        }
+                    };
+                    return Ok(vec![format!("id g {}v{}", id.index().0, id.generation())]);
+                }
                 if is_targeted(ev) {
                     let id = match *ev {
                         "T0" => w.add_targeted_event::<T0>(),
@@ -690,6 +762,20 @@ impl Exec {
                 }
             }
             ["rmev", ev] => {
+                if let Some((targeted, n)) = anon_ev(ev) {
+                    let r = if targeted {
+                        match self.anon_t.get(&n).copied().filter(|id| w.targeted_events().contains(*id)) {
+                            Some(id) => w.remove_targeted_event(id).is_some(),
+                            None => false,
+                        }
+                    } else {
+                        match self.anon_g.get(&n).copied().filter(|id| w.global_events().contains(*id)) {
+                            Some(id) => w.remove_global_event(id).is_some(),
+                            None => false,
+                        }
+                    };
+                    return Ok(vec![if r { "ret some".into() } else { "ret none".into() }]);
+                }
                 if is_targeted(ev) {
                     match tev_id(w, ev) {
                         Some(id) => {
